@@ -236,3 +236,7 @@ impl<'a, T: Queryable> Pointer<'a, T> {
         self.path.is_empty()
     }
 }
+
+#[cfg(kani)]
+#[path = "/verif/kani/state.rs"]
+mod verif_kani;
